@@ -503,6 +503,65 @@ def build_session(reg):
         **common)
 
 
+    # ---- the answer to an encrypted call (success continuation of the INVOCATION arm): the result goes back sealed, or the
+    #      caller gets an ERROR that does not carry it -- whatever the codec does (returns nothing, raises), never in the clear
+    def ext_encode_may_raise(ex, state, args, kwargs, sv):
+        ex.raise_if(state, z3.Bool(fresh_name("encode_raises")), "Exception")
+        return ext_codec_encode(ex, state, args, kwargs, sv)
+    reg.external("codec.encode_may_raise", ext_encode_may_raise)
+    reg.shape("CodecR", fields={}, methods={"decode": "codec.decode", "encode": "codec.encode_may_raise"})
+    reg.shape("SessionR", cls=SESS, fields=dict(reg.shapes["Session"].fields, _payload_codec="opt:obj:CodecR"),
+              methods=dict(reg.shapes["Session"].methods))
+    CLEAR_FREE = ("implies(isinstance(ghost.last_sent, Yield), ghost.last_sent.payload == ghost.sealed and "
+                  "ghost.last_sent.args is None and ghost.last_sent.kwargs is None and ghost.last_sent.enc_algo is not None)")
+    reg.contract(
+        SESS + ".onMessage/success@message.Invocation", name=SESS + ".onMessage/success@message.Invocation<encrypted>",
+        params={"self": "obj:SessionR", "msg": "obj:InvocationEnc", "registration": "sym:Registration", "proc": "opt:str",
+                "res": "int"},
+        requires=["self._transport is not None", "msg.request in self._invocations", "len(msg.enc_algo) > 0"],
+        modifies=["self._invocations", "ghost.n_sent", "ghost.last_sent", "ghost.n_encode", "ghost.last_is_orig", "ghost.sealed",
+                  "EncPayload.*"],
+        ensures=["ghost.n_sent == old(ghost.n_sent) + 1", "msg.request not in self._invocations",
+                 "(isinstance(ghost.last_sent, Yield) or isinstance(ghost.last_sent, Error)) and "
+                 "ghost.last_sent.request == msg.request",
+                 CLEAR_FREE,
+                 # an ERROR answer names the invocation and does not carry the result
+                 "implies(isinstance(ghost.last_sent, Error), ghost.last_sent.request_type == 68 and "
+                 "ghost.last_sent.kwargs is None)"],
+        raises={"TransportLost": "True", "SerializationError": "True", "PayloadExceededError": "True"},
+        raises_ensures={"*": ["msg.request not in self._invocations"]}, **common)
+
+
+    # ---- the originating side: publish() / call() with a keyring active seal the payload once, as originator, under the
+    #      request's URI; what is handed to the transport then carries the sealed payload and no clear arguments.  (When no
+    #      key covers the URI the codec returns nothing and the request travels unencrypted: the keyring's documented policy.)
+    reg.contract("autobahn.wamp.message:check_or_raise_uri",
+                 params={"value": "any", "message": "any", "strict": "bool", "allow_empty_components": "bool",
+                         "allow_last_empty": "bool", "allow_none": "bool"},
+                 returns="any", raises={"InvalidUriError": "True"}, verify=False, props=["C08"], spec_module="specs.wamp")
+    reg.external("txaio.create_future", lambda ex, state, args, kwargs, sv: W.ext_create_future(ex, state, [], {}, None))
+    for api, cls, uri in (("publish", "Publish", "topic"), ("call", "Call", "procedure")):
+        reg.contract(
+            SESS + "." + api, name=SESS + ".%s[encrypted]" % api,
+            params={"self": "obj:SessionR", uri: "str", "args": "any", "kwargs": "cdict:options=none"}, returns="any",
+            requires=["self._transport is not None", "self._payload_codec is not None",
+                      "0 <= self._request_id_gen._next and self._request_id_gen._next < 2**53"],
+            modifies=["self._call_reqs", "self._publish_reqs", "CallRequest.*", "Request.*", "Fut.*", "ghost.n_sent",
+                      "ghost.last_sent", "self._request_id_gen._next", "kwargs", "ghost.n_encode", "ghost.last_is_orig",
+                      "ghost.sealed", "EncPayload.*"],
+            ensures=["ghost.n_sent == old(ghost.n_sent) + 1 and isinstance(ghost.last_sent, %s) and ghost.last_sent.%s == %s"
+                     % (cls, uri, uri),
+                     "ghost.n_encode == old(ghost.n_encode) + 1 and ghost.last_is_orig",
+                     # sealed: the ciphertext and nothing in the clear
+                     "implies(ghost.last_sent.payload is not None, ghost.last_sent.payload == ghost.sealed and "
+                     "ghost.last_sent.args is None and ghost.last_sent.kwargs is None and ghost.last_sent.enc_algo is not None)",
+                     "implies(ghost.last_sent.payload is None, ghost.last_sent.enc_algo is None)"],
+            raises={"SerializationError": "True", "PayloadExceededError": "True", "TransportLost": "True",
+                    "AssertionError": "True", "InvalidUriError": "True", "Exception": "True"},
+            # a codec that fails means the request is not sent at all
+            raises_ensures={"*": ["ghost.n_sent == old(ghost.n_sent)"]}, **common)
+
+
 def extra_checks(tier, seed):
     if tier != "thorough":
         return []
